@@ -596,8 +596,11 @@ class LayoutAwareDFXPParser(BeautifulSoup):
         http://www.crummy.com/software/BeautifulSoup/bs4/doc/#installing-a-parser
         """
 
-        # Work around for lack of '&apos;' support in html.parser
-        markup = markup.replace("&apos;", "'")
+        # Work around for lack of '&apos;' support in html.parser (the text of a
+        # CDATA section is literal: there the six characters stay as they are)
+        markup = re.sub(
+            r"(<!\[CDATA\[.*?\]\]>)|&apos;",
+            lambda match: match.group(1) or "'", markup, flags=re.DOTALL)
 
         super().__init__(
             markup, features, builder, parse_only, from_encoding, **kwargs)
